@@ -2469,6 +2469,8 @@ Proof.
   { destruct a as [|blob [|tract [|off [|len [|nt tries]]]]]; exact HI. }
   destruct (c =? 81) eqn:C81; [apply Z.eqb_eq in C81; subst c; discriminate|].
   destruct (c =? 82); [exact HI|].
+  destruct (c =? 84); [exact HI|].
+  destruct (c =? 83); [exact HI|].
   destruct (c =? 31).
   { destruct a as [|blob [|]]; try exact HI. destruct (Cluster.Model.zget _ _); exact HI. }
   exact HI.
